@@ -253,7 +253,53 @@ def run_cli(rec, seed, shard, nshards, tier):
     core.hyp_run(rec, prop_cli, cli_cases(), n, seed, shrink=False)
 
 
+# ---------------------------------------------------------------- scale: a list of more than a MiB
+def prop_large(case, rec):
+    """A PRINCE grammar whose D6 list holds `n` values in groups of 3000 equally probable ones (plus a few words with case masks):
+    stdout and the file must be the same list of the model's words, and --size N (N inside a group far into the list) its prefix."""
+    n = case['n']
+    groups, k, i = [], 0, 0
+    while k < n:
+        size = min(3000, n - k)
+        groups.append([(0.9 ** i) * 0.1 / 3000, ['%06d' % (k + j) for j in range(size)]])
+        k += size
+        i += 1
+    m = {'encoding': 'utf-8', 'uuid': 'c17-large', 'vars': {'D6': groups, 'A3': [[0.5, ['abc']], [0.25, ['xyz', 'klm']]], 'C3': [[0.5, ['LLL']], [0.25, ['ULL', 'UUU']]]},
+         'base': [['D6', 0.5], ['A3', 0.5]], 'prince': [['D6', 0.75], ['A3', 0.25]], 'm_levels': []}
+    root = _root()
+    rsmodel.write_ruleset(os.path.join(root, 'Rules', 'T'), m)
+    U, _ = guard(case, run_prince, root, ['-r', 'T'])
+    want = n + 9
+    if len(U) != want or len(set(U)) != want:
+        raise Violation('wordlist_set', f'unbounded list has {len(U)} words ({len(set(U))} distinct), the PRINCE grammar has {want}', case)
+    fn = os.path.join(root, 'big out.txt')
+    for size in (None, n - 1234):
+        if os.path.exists(fn):
+            os.remove(fn)
+        lines2, _ = guard(case, run_prince, root, ['-r', 'T', '-o', fn] + (['-s', str(size)] if size else []))
+        data = open(fn, 'rb').read() if os.path.exists(fn) else None
+        expect = ''.join(w + '\n' for w in (U[:size] if size else U)).encode('utf-8')
+        rec.case({'words': len(U), 'bytes': len(expect), 'size': size}, True, ['list_of_%d_bytes' % len(expect)], key=['large', n, size])
+        if lines2:
+            raise Violation('file_mode_stdout', f'with --output the words were (also) written to stdout: {lines2[:3]}', case)
+        if data != expect:
+            got = (data or b'').split(b'\n')
+            exp = expect.split(b'\n')
+            j = next((x for x in range(min(len(got), len(exp))) if got[x] != exp[x]), min(len(got), len(exp)))
+            raise Violation('file_differs', f'--output{" --size %d" % size if size else ""}: the file has {len(got) - 1} lines ({None if data is None else len(data)} bytes), stdout gives '
+                            f'{len(exp) - 1} ({len(expect)} bytes); first difference at line {j + 1}: {got[j:j + 1]} vs {exp[j:j + 1]}', case)
+        if size:
+            got3, _ = guard(case, run_prince, root, ['-r', 'T', '-s', str(size)])
+            if got3 != U[:size]:
+                raise Violation('size', f'--size {size}: {len(got3)} words on stdout, expected the first {size} of the unbounded list', case)
+
+
+def run_large(rec, seed, shard, nshards, tier):
+    prop_large({'n': {'quick': 160000, 'thorough': 400000}[tier]}, rec)
+
+
 PARTS = [
+    Part('large_list', run_large, prop_large, {'quick': 1, 'thorough': 1}),
     Part('regression_f17', run_regress, prop, {'quick': 1, 'thorough': 1}),
     Part('every_size', run_main, prop, {'quick': 8, 'thorough': 16}),
     Part('cli', run_cli, prop_cli, {'quick': 4, 'thorough': 8}),
